@@ -245,8 +245,109 @@ fn mesh2_num(t: &mut Toks, cx: &mut Ctx) -> String {
     out
 }
 
+fn views1(m: &Mesh1D<f64, f64>, xs: &[f64]) -> String {
+    let mut out = String::new();
+    for q in 0..m.nvars() + 1 { let r = guarded(|| m.trapezium(q)); out.push(' '); out.push_str(&match &r { Ok(v) => v.wr(), Err(c) => format!("!{}", c) }); }
+    for x in xs { let r = guarded(|| m.get_interpolated_vars(*x)); out.push(' '); out.push_str(&match &r { Ok(v) => wr_vector(v), Err(c) => format!("!{}", c) }); }
+    out
+}
+/// history of an f64 1-D mesh; after EVERY step all read-only views (quadrature of every variable, interpolation at fixed
+/// points) are evaluated and must equal, bit for bit, those of a twin mesh freshly built from the reference map
+fn mesh1_fhist(t: &mut Toks, cx: &mut Ctx) -> String {
+    let nodes: Vec<f64> = t.vec();
+    let nvars = t.usize();
+    let xs: Vec<f64> = t.vec();
+    let nops = t.usize();
+    let nn = nodes.len();
+    cx.meta("nodes", nn); cx.meta("nvars", nvars); cx.meta("ops", nops);
+    let mut m = Mesh1D::<f64, f64>::new(Vector::create(nodes.clone()), nvars);
+    let mut rn: Vec<f64> = nodes.clone();
+    let mut rf: Vec<Vec<f64>> = vec![vec![0.0; nvars]; nn];
+    let twin = |rn: &Vec<f64>, rf: &Vec<Vec<f64>>| { let mut w = Mesh1D::<f64, f64>::new(Vector::create(rn.clone()), nvars); for i in 0..rn.len() { w.set_nodes_vars(i, Vector::create(rf[i].clone())); } w };
+    let mut out = format!("{} ~{}", dump1(&m), views1(&m, &xs));
+    let mut drift = 0.0f64;   // what the printed precisions of the re-reads so far allow the nodes to have moved
+    let dir = std::path::PathBuf::from(std::env::var("OHSL_VERIF_TMP").unwrap_or_else(|_| "/verif/work/tmp".to_string())); let _ = std::fs::create_dir_all(&dir);
+    for step in 0..nops {
+        let op = t.next();
+        let before = dump1(&m);
+        let r: Result<(), &'static str> = match op {
+            "set" => { let i = t.usize(); let v: Vector<f64> = rd_vector(t); let r = guarded(|| m.set_nodes_vars(i, v.clone()));
+                let valid = i < rn.len() && v.size() == nvars;
+                match &r { Ok(_) => { cx.check(valid, "set_nodes_vars accepted an out-of-range node / wrong size"); if valid { rf[i] = v.vec.clone(); } } Err(_) => { cx.check(!valid, "set_nodes_vars rejected valid arguments"); cx.check(dump1(&m) == before, "rejected set_nodes_vars modified the mesh"); } }
+                r }
+            "setvar" => { let (i, k) = (t.usize(), t.usize()); let x: f64 = t.get(); let r = guarded(|| { m[i][k] = x; });
+                if r.is_ok() { cx.check(i < rn.len() && k < nvars, "indexed write out of range succeeded"); if i < rn.len() && k < nvars { rf[i][k] = x; } } else { cx.check(dump1(&m) == before, "failed indexed write modified the mesh"); }
+                r }
+            "reread" => { let prec = t.usize();
+                let path = dir.join(format!("meshh-{}-{}.dat", std::process::id(), step)); let ps = path.to_str().unwrap().to_string();
+                let r = guarded(|| { m.output(&ps, prec); m.read(&ps); });
+                // the reference becomes what a FRESH one-node mesh reads from the same file
+                let r2 = guarded(|| { let mut w = Mesh1D::<f64, f64>::new(Vector::create(vec![0.0; 1]), nvars); w.read(&ps); w });
+                let _ = std::fs::remove_file(&path);
+                match (&r, &r2) { (Ok(_), Ok(w)) => { rn = w.nodes().vec.clone(); rf = (0..w.nnodes()).map(|i| w[i].vec.clone()).collect();
+                        drift += 0.5 * 10f64.powi(-(prec as i32)) * 1.0000001;
+                        cx.check(rn.len() == nn && (0..nn.min(rn.len())).all(|i| (rn[i] - nodes[i]).abs() <= drift + 1e-15 * nodes[i].abs()), "re-reading the mesh's own file changed the nodes by more than the printed precision"); }
+                    _ => if nvars > 0 || nn > 0 { cx.fail("output / read of the mesh's own file panicked".to_string()); } }
+                r }
+            _ => panic!("HARNESS: unknown mesh1 f-op {}", op),
+        };
+        let w = twin(&rn, &rf);
+        cx.check(dump1(&m) == dump1(&w), "mesh differs from the reference map after the operation");
+        let (va, vb) = (views1(&m, &xs), views1(&w, &xs));
+        cx.check(va == vb, "a read-only view (trapezium / interpolation) of the edited mesh differs from the same view of a mesh freshly built with the same contents");
+        out.push_str(&format!(" ; {} {} | {} ~{}", op, match &r { Ok(_) => "ok".to_string(), Err(c) => format!("!{}", c) }, dump1(&m), va));
+        if cx.skip.is_some() { break; }
+    }
+    out
+}
+
+fn views2(m: &Mesh2D<f64>) -> String {
+    let mut out = String::new();
+    for q in 0..m.nvars() { let (a, b) = (guarded(|| m.trapezium(q)), guarded(|| m.square_trapezium(q)));
+        out.push_str(&format!(" {} {}", match &a { Ok(v) => v.wr(), Err(c) => format!("!{}", c) }, match &b { Ok(v) => v.wr(), Err(c) => format!("!{}", c) })); }
+    out
+}
+fn mesh2_fhist(t: &mut Toks, cx: &mut Ctx) -> String {
+    let xn: Vec<f64> = t.vec();
+    let yn: Vec<f64> = t.vec();
+    let nvars = t.usize();
+    let nops = t.usize();
+    let (nx, ny) = (xn.len(), yn.len());
+    cx.meta("grid", format!("{}x{}", nx, ny)); cx.meta("nvars", nvars); cx.meta("ops", nops);
+    let mut m = Mesh2D::<f64>::new(Vector::create(xn.clone()), Vector::create(yn.clone()), nvars);
+    let mut rf: Vec<Vec<Vec<f64>>> = vec![vec![vec![0.0; nvars]; ny]; nx];
+    let twin = |rf: &Vec<Vec<Vec<f64>>>| { let mut w = Mesh2D::<f64>::new(Vector::create(xn.clone()), Vector::create(yn.clone()), nvars); for i in 0..nx { for j in 0..ny { w.set_nodes_vars(i, j, Vector::create(rf[i][j].clone())); } } w };
+    let mut out = format!("{} ~{}", dump2(&m), views2(&m));
+    for _ in 0..nops {
+        let op = t.next();
+        let before = dump2(&m);
+        let r: Result<String, &'static str> = match op {
+            "set" => { let (i, j) = (t.usize(), t.usize()); let v: Vector<f64> = rd_vector(t); let r = guarded(|| m.set_nodes_vars(i, j, v.clone()));
+                let valid = i < nx && j < ny && v.size() == nvars;
+                match &r { Ok(_) => { cx.check(valid, "set_nodes_vars accepted an out-of-range node / wrong size"); if valid { rf[i][j] = v.vec.clone(); } } Err(_) => { cx.check(!valid, "set_nodes_vars rejected valid arguments"); cx.check(dump2(&m) == before, "rejected set_nodes_vars modified the mesh"); } }
+                r.map(|_| String::new()) }
+            "setvar" => { let (i, j, k) = (t.usize(), t.usize(), t.usize()); let x: f64 = t.get(); let r = guarded(|| { m[(i, j)][k] = x; });
+                if r.is_ok() { if i < nx && j < ny && k < nvars { rf[i][j][k] = x; } } else { cx.check(dump2(&m) == before, "failed indexed write modified the mesh"); }
+                r.map(|_| String::new()) }
+            "assign" => { let x: f64 = t.get(); let r = guarded(|| m.assign(x)); for a in rf.iter_mut() { for b in a.iter_mut() { for c in b.iter_mut() { *c = x; } } } r.map(|_| String::new()) }
+            "xtrap" => { let (i, q) = (t.usize(), t.usize()); let r = guarded(|| m.cross_section_xnode(i).trapezium(q));
+                if let Ok(v) = &r { if i < nx && q < nvars && ny >= 1 { let cells: f64 = (0..ny - 1).map(|j| 0.5 * (yn[j + 1] - yn[j]) * (rf[i][j][q] + rf[i][j + 1][q])).sum(); cx.check(*v == cells, "quadrature along a cross-section differs from the sum of its cell contributions"); } }
+                cx.check(dump2(&m) == before, "cross-section modified the mesh");
+                r.map(|v| v.wr()) }
+            _ => panic!("HARNESS: unknown mesh2 f-op {}", op),
+        };
+        let w = twin(&rf);
+        cx.check(dump2(&m) == dump2(&w), "mesh differs from the reference map after the operation");
+        let (va, vb) = (views2(&m), views2(&w));
+        cx.check(va == vb, "a read-only view (trapezium / square_trapezium) of the edited mesh differs from the same view of a mesh freshly built with the same contents");
+        out.push_str(&format!(" ; {} {} | {} ~{}", op, outcome(&r), dump2(&m), va));
+        if cx.skip.is_some() { break; }
+    }
+    out
+}
+
 pub fn exec(op: &str, t: &mut Toks, cx: &mut Ctx) -> Option<String> {
-    match op { "mesh1_hist" => Some(mesh1_hist(t, cx)), "mesh2_hist" => Some(mesh2_hist(t, cx)), "mesh1_num" => Some(mesh1_num(t, cx)), "mesh2_num" => Some(mesh2_num(t, cx)), _ => None }
+    match op { "mesh1_hist" => Some(mesh1_hist(t, cx)), "mesh2_hist" => Some(mesh2_hist(t, cx)), "mesh1_num" => Some(mesh1_num(t, cx)), "mesh2_num" => Some(mesh2_num(t, cx)), "mesh1_fhist" => Some(mesh1_fhist(t, cx)), "mesh2_fhist" => Some(mesh2_fhist(t, cx)), _ => None }
 }
 
 /// increasing NEARLY uniform dyadic grid: spacings 2^-6 + k 2^-24 (k = 0..3), i.e. differing by less than 1e-7
@@ -310,5 +411,48 @@ pub fn gen(rng: &mut Rng, tier: Tier, out: &mut Vec<String>) {
             for e in &exprs { let g = if bil { Expr::Add(Box::new(e.clone()), Box::new(Expr::Sin(Box::new(Expr::Var(0))))) } else { e.clone() }; s.push(' '); s.push_str(&g.show()); }
             out.push(s);
         }
+    }
+    // f64 histories: edits through every write path, all read-only views after every step
+    for _ in 0..nh / 2 {
+        let nn = 2 + rng.below(9); let nvars = 1 + rng.below(3);
+        let nodes = grid(rng, nn);
+        let mut xs: Vec<f64> = Vec::new();
+        for _ in 0..2 { let c = rng.below(nn - 1); xs.push(nodes[rng.below(nn)]); xs.push(nodes[c] + (nodes[c + 1] - nodes[c]) * (0.001 + 0.998 * rng.unit())); }
+        let nops = 2 + rng.below(14);
+        let mut s = format!("mesh1_fhist {} {} {} {}", wr_vec(&nodes), nvars, wr_vec(&xs), nops);
+        for _ in 0..nops { let bad = rng.chance(6); let node = if bad { nn + rng.below(2) } else { rng.below(nn) };
+            match rng.below(8) { 0 | 1 | 2 => { let l = if bad && rng.chance(50) { nvars + 1 } else { nvars }; let v: Vec<f64> = (0..l).map(|_| rng.range(-40, 40) as f64 / 4.0).collect(); s.push_str(&format!(" set {} {}", node, wr_vec(&v))); }
+                3 | 4 | 5 | 6 => { let k = if bad { nvars + rng.below(2) } else { rng.below(nvars) }; s.push_str(&format!(" setvar {} {} {}", node, k, (rng.range(-40, 40) as f64 / 4.0).wr())); }
+                _ => s.push_str(&format!(" reread {}", *rng.pick(&[2usize, 4, 8]))) } }
+        out.push(s);
+        let (nx, ny) = (1 + rng.below(5), 1 + rng.below(5)); let nvars = 1 + rng.below(3);
+        let nops = 2 + rng.below(14);
+        let mut s = format!("mesh2_fhist {} {} {} {}", wr_vec(&grid(rng, nx)), wr_vec(&grid(rng, ny)), nvars, nops);
+        for _ in 0..nops { let bad = rng.chance(6);
+            let i = if bad { nx + rng.below(2) } else { rng.below(nx) }; let j = if bad && rng.chance(50) { ny + rng.below(2) } else { rng.below(ny) };
+            match rng.below(10) { 0 | 1 | 2 => { let l = if bad && rng.chance(30) { nvars + 1 } else { nvars }; let v: Vec<f64> = (0..l).map(|_| rng.range(-40, 40) as f64 / 4.0).collect(); s.push_str(&format!(" set {} {} {}", i, j, wr_vec(&v))); }
+                3 | 4 | 5 | 6 => s.push_str(&format!(" setvar {} {} {} {}", i.min(nx - 1), j.min(ny - 1), rng.below(nvars), (rng.range(-40, 40) as f64 / 4.0).wr())),
+                7 => s.push_str(&format!(" assign {}", (rng.range(-8, 8) as f64 / 2.0).wr())),
+                _ => s.push_str(&format!(" xtrap {} {}", rng.below(nx), rng.below(nvars))) } }
+        out.push(s);
+    }
+
+    // LARGER MESHES (up to 65 nodes / 33 x 25 grids)
+    for k in 0..(if tier == Tier::Quick { 10 } else { 200 }) {
+        let nn = big(rng, 65); let nvars = 1 + rng.below(3);
+        let nodes = grid(rng, nn);
+        let linear = k % 2 == 0;
+        let coef: Vec<(f64, f64)> = (0..nvars).map(|_| (rng.range(-6, 6) as f64, rng.range(-9, 9) as f64)).collect();
+        let data: Vec<f64> = (0..nn).flat_map(|i| (0..nvars).map(|q| if linear { coef[q].0 * nodes[i] * 16.0 + coef[q].1 } else { rng.range(-40, 40) as f64 }).collect::<Vec<_>>()).collect();
+        let mut xs: Vec<f64> = Vec::new();
+        for _ in 0..4 { let c = rng.below(nn - 1); xs.push(nodes[rng.below(nn)]); xs.push(nodes[c] + (nodes[c + 1] - nodes[c]) * (0.001 + 0.998 * rng.unit())); }
+        xs.push(nodes[nn - 1]); xs.push(0.5 * (nodes[nn - 2] + nodes[nn - 1]));
+        out.push(format!("mesh1_num {} {} {} {} {} {}", wr_vec(&nodes), nvars, wr_vec(&data), wr_vec(&xs), *rng.pick(&[2usize, 8]), if linear { "linear" } else { "general" }));
+        let (nx, ny) = (big(rng, 33), if rng.chance(50) { big(rng, 25) } else { 2 + rng.below(6) });
+        let kk = |x: f64| Expr::<f64>::Const(x);
+        let lx = Expr::Add(Box::new(Expr::Mul(Box::new(kk(rng.range(-3, 3) as f64 * 16.0)), Box::new(Expr::Var(0)))), Box::new(kk(rng.range(-5, 5) as f64)));
+        let ly = Expr::Add(Box::new(Expr::Mul(Box::new(kk(rng.range(-3, 3) as f64 * 16.0)), Box::new(Expr::Var(1)))), Box::new(kk(rng.range(-5, 5) as f64)));
+        let e = if linear { Expr::Mul(Box::new(lx), Box::new(ly)) } else { Expr::Add(Box::new(Expr::Sin(Box::new(lx))), Box::new(Expr::Mul(Box::new(ly.clone()), Box::new(ly)))) };
+        out.push(format!("mesh2_num {} {} 1 {} {}", wr_vec(&grid(rng, nx)), wr_vec(&grid(rng, ny)), if linear { "bilinear" } else { "general" }, e.show()));
     }
 }
